@@ -1,9 +1,12 @@
 #!/bin/bash
-# usage: tools/suite.sh [dir]   runs the pinned suite (hooks off) in dir (default /repo) and compares with BASELINE.json
+# usage: tools/suite.sh [dir]   runs the pinned suite (hooks off) in dir (default /repo) and compares with BASELINE.json.
+# Tests that fail in the full run are re-run alone up to 3 times (a few timing-sensitive tests flake on a loaded machine,
+# on the unchanged tree as well); the last line says whether every baseline test passed in the full run or alone.
 D="${1:-/repo}"
 export GOFLAGS=-mod=mod GOPROXY=off GOSUMDB=off GOTOOLCHAIN=local
-cd "$D" && go test -json -vet=off -count=1 -timeout 25m ./... > /tmp/suite.$$.json 2>&1
-python3 - /tmp/suite.$$.json <<'PY'
+T=/tmp/suite.$$
+cd "$D" && go test -json -vet=off -count=1 -timeout 25m ./... > $T.json 2>&1
+python3 - $T.json $T.retry <<'PY'
 import json,sys
 res={}
 for l in open(sys.argv[1]):
@@ -13,5 +16,26 @@ for l in open(sys.argv[1]):
 b=json.load(open('/root/.vp/BASELINE.json'))['stable_pass']
 bad=[t for t in b if res.get(t)!='pass']
 print("suite_baseline_pass=%d/%d not_passing=%s"%(len(b)-len(bad),len(b),bad))
+def top(t):
+    pkg,_,name=t.partition('::')
+    return pkg+'::'+name.split('/')[0]      # drop the subtest part of the test name only
+tops=sorted(set(top(t) for t in bad))
+open(sys.argv[2],'w').write("".join(x+"\n" for x in tops))
+print("to_retry=%d"%len(tops))
 PY
-rm -f /tmp/suite.$$.json
+still=0
+expected=$(wc -l < $T.retry)
+done_n=0
+while read -r t <&3; do
+  [ -z "$t" ] && continue
+  pkg="${t%%::*}"; name="${t##*::}"
+  ok=0
+  for a in 1 2 3; do if (cd "$D" && go test -vet=off -count=1 -run "^${name}\$" "$pkg" >/dev/null 2>&1); then ok=1; break; fi; done
+  echo "retry $t alone: pass=$ok"
+  done_n=$((done_n+1))
+  [ $ok = 1 ] || still=1
+done 3< $T.retry
+# fail closed: every test that needed a retry must actually have been retried
+[ "$done_n" = "$expected" ] || { echo "SUITE-SCRIPT-ERROR retried $done_n of $expected"; still=1; }
+[ $still = 0 ] && echo "SUITE-OK (all baseline tests pass, in the full run or alone)" || echo "SUITE-FAILED"
+rm -f $T.json $T.retry
